@@ -147,14 +147,14 @@ fn spanned(case: &Case) -> Vec<Spanned> {
         .collect()
 }
 
-/// The end-of-input span of the mapped kinds: `E..E` with `E` = (end of the last token) + 2, or `3..3` for the
-/// empty input.
+/// The end-of-input span of the mapped kinds: `E-1..E` with `E` = (end of the last token) + 2, or `2..3` for the
+/// empty input. Deliberately not zero-width (the 0.9-style `len..len+1`): chumsky only ever uses its end.
 fn eoi(case: &Case) -> SimpleSpan<usize> {
     let e = match case.spans.last() {
         Some(&(_, e)) => e + 2,
         None => 3,
     };
-    SimpleSpan::from(e..e)
+    SimpleSpan::from(e - 1..e)
 }
 
 // ---------- one runner per input kind ----------
